@@ -336,9 +336,9 @@ theorem checkWork_ok (c : ObjCfg) (sh sh' : SpecHalf) (silent : Bool) (o o' : Ob
   have e2 : (silent && o.paused && (o'.execs != o.execs)) = false := by
     cases hs : silent <;> cases hp : o.paused <;> simp
     exact h4 hs hp
-  have e4 : (c.kind == .other && (o'.execs != o.execs || o'.stash != o.stash)) = false := by
+  have e4 : (c.kind == .other && (o'.execs != o.execs)) = false := by
     cases hk : c.kind <;> simp
-    rw [h5 hk]; simp
+    rw [h5 hk]
   simp only [e1, e2, e3, e4]
   simp
 
@@ -404,7 +404,7 @@ theorem half_step (l : Layout) (nA nB : Name) (hne : nA ≠ nB) (c : ObjCfg) (s 
     refine ⟨?_, work_step c _ sh h hr0 _ 1 p1 (by omega)⟩
     have hw := checkWork_ok c sh (specHalfNext l sh (.due s') (dueObj c h.obj)) true h.obj _ hprev p1 p2
       (by simp only [specHalfNext]; omega) (fun _ => p4) p5
-    simp only [checkOwn, stepHalf, hw, hprev]
+    simp only [checkOwn, hw, hprev]
     cases hk : c.kind <;> cases ha : c.active <;> cases hp : h.obj.paused <;> simp
     exact p6 hk ha hp
   | boot s' start =>
